@@ -763,3 +763,54 @@ func runLastBytePatch(rc *RuleCtx) {
 		}
 	}
 }
+
+// ---------------------------------------------------------------------------------------------
+// ROOTLEN
+// ---------------------------------------------------------------------------------------------
+
+func init() {
+	register(&Rule{
+		Name:     "ROOTLEN",
+		Doc:      "a protobuf message value that was cut out of its parent starts with its length prefix, a root value does not: every method with a proto/generic.Value receiver that starts a walk over the fields of the receiver's own bytes (it calls marshalTo, iterFields or scanChildren) reads the receiver's IsRoot flag. Value.MarshalTo did not: cutting a sub-message obtained by GetByPath / Field parsed the length prefix as a field tag (`invalid data type`), so only root values could be cut",
+		Configs:  "NP",
+		Floor:    map[string]int{"N": 4, "P": 4},
+		Controls: 1,
+		Run:      runRootLen,
+	})
+}
+
+func runRootLen(rc *RuleCtx) {
+	for _, fn := range rc.W.Funcs {
+		if fn.Blocks == nil || pkgRel(fn) != "proto/generic" || fn.Signature.Recv() == nil || fn.Parent() != nil {
+			continue
+		}
+		rt := fn.Signature.Recv().Type()
+		if p, ok := rt.(*types.Pointer); ok {
+			rt = p.Elem()
+		}
+		if n, ok := rt.(*types.Named); !ok || n.Obj().Name() != "Value" {
+			continue
+		}
+		var walk ssa.Instruction
+		readsRoot := false
+		for _, b := range fn.Blocks {
+			for _, ins := range b.Instrs {
+				if callsNamed(ins, "marshalTo") || callsNamed(ins, "iterFields") || callsNamed(ins, "scanChildren") {
+					walk = ins
+				}
+				if v, ok := ins.(ssa.Value); ok {
+					if _, n, ok := fieldNameOf(v); ok && n == "IsRoot" {
+						readsRoot = true
+					}
+				}
+			}
+		}
+		if walk == nil {
+			continue
+		}
+		rc.Examined++
+		rc.verdict(readsRoot, fn, "field walk over the receiver", walk.Pos(), map[bool]string{
+			true:  "the walk takes the receiver's IsRoot flag into account",
+			false: "the receiver's bytes are walked as a field sequence without looking at IsRoot: for a message value cut out of its parent the length prefix is taken for the first tag"}[readsRoot], true)
+	}
+}
